@@ -513,6 +513,12 @@ func (f *e1func) runInlined(st *fstate, c *ast.CallExpr, callee *FuncInfo) *inlR
 			stable = false
 		}
 		if g.assigned[p] == 0 && !g.addrTaken[p] && stable {
+			if isBoolType(p.Type()) {
+				if g.subCond == nil {
+					g.subCond = map[types.Object]subCond{}
+				}
+				g.subCond[p] = subCond{f, args[i]}
+			}
 			g.tb.sub[p] = at
 		} else {
 			add = append(add, fact("def", pv, at))
